@@ -1,2 +1,10 @@
-(* C05 - placeholder while the correspondence is being validated. *)
-From TT Require Import Lib.Base Gen.Handlers Model.Run Spec.Run Spec.C05 Corr.C05 Proof.C05.
+(* C05 - provisional while the correspondence is being validated. *)
+From TT Require Import Lib.Base Gen.Handlers Model.Run Spec.Run Spec.C05 Corr.C05 Proof.RunCore Proof.C05.
+
+Theorem C05_statement : forall i o, spec_okb i o = true -> Spec i o.
+Proof. exact spec_okb_sound. Qed.
+Print Assumptions C05_statement.
+
+Theorem C05_obs_eqb : forall a b, obs_eqb a b = true <-> obs_equiv a b.
+Proof. exact obs_eqb_spec. Qed.
+Print Assumptions C05_obs_eqb.
